@@ -1,5 +1,526 @@
-(* C16/Lemmas.v — proofs about C16/Model.v and C16/ModelAffine.v *)
+(* C16/Lemmas.v — proofs about C16/Model.v (the affine part is in LemmasAffine.v) *)
 From Coq Require Import ZArith List Bool Lia ZifyBool.
 From NV Require Import Base.Bytes C16.Tables C16.Model.
 Import ListNotations.
 Open Scope Z_scope.
+
+(* ------------------------------------------------------------------ take / drop *)
+Lemma takez_eq {A} (l : list A) : forall n, takez n l = take n l.
+Proof.
+  induction l as [|x r IH]; intros n; unfold take; cbn [takez].
+  - now rewrite firstn_nil.
+  - destruct (Z.leb_spec n 0) as [H|H].
+    + replace (Z.to_nat n) with 0%nat by lia. reflexivity.
+    + replace (Z.to_nat n) with (S (Z.to_nat (n - 1))) by lia. cbn [firstn]. now rewrite IH.
+Qed.
+
+Lemma dropz_eq {A} (l : list A) : forall n, dropz n l = drop n l.
+Proof.
+  induction l as [|x r IH]; intros n; unfold drop; cbn [dropz].
+  - now rewrite skipn_nil.
+  - destruct (Z.leb_spec n 0) as [H|H].
+    + replace (Z.to_nat n) with 0%nat by lia. reflexivity.
+    + replace (Z.to_nat n) with (S (Z.to_nat (n - 1))) by lia. cbn [skipn]. now rewrite IH.
+Qed.
+
+Lemma zlen_nonneg {A} (l : list A) : 0 <= zlen l.
+Proof. unfold zlen; lia. Qed.
+Lemma zlen_app {A} (a b : list A) : zlen (a ++ b) = zlen a + zlen b.
+Proof. unfold zlen. rewrite app_length. lia. Qed.
+Lemma zlen_cons {A} (x : A) l : zlen (x :: l) = 1 + zlen l.
+Proof. unfold zlen. cbn [length]. lia. Qed.
+Lemma zlen_nil {A} : zlen (@nil A) = 0.
+Proof. reflexivity. Qed.
+
+Lemma take_app_len {A} n (a r : list A) : zlen a = n -> take n (a ++ r) = a.
+Proof. intros <-. apply take_app_exact. Qed.
+Lemma drop_app_len {A} n (a r : list A) : zlen a = n -> drop n (a ++ r) = r.
+Proof. intros <-. apply drop_app_exact. Qed.
+Lemma take_all {A} n (a : list A) : zlen a <= n -> take n a = a.
+Proof. intros H. unfold take. apply firstn_all2. unfold zlen in H. lia. Qed.
+Lemma drop_all {A} n (a : list A) : zlen a <= n -> drop n a = [].
+Proof. intros H. unfold drop. apply skipn_all2. unfold zlen in H. lia. Qed.
+Lemma zlen_take {A} n (a : list A) : 0 <= n -> zlen (take n a) = Z.min n (zlen a).
+Proof. intros H. unfold zlen, take. rewrite firstn_length. lia. Qed.
+Lemma zlen_drop {A} n (a : list A) : 0 <= n -> zlen (drop n a) = Z.max 0 (zlen a - n).
+Proof. intros H. unfold zlen, drop. rewrite skipn_length. lia. Qed.
+Lemma take_drop_id {A} n (a : list A) : take n a ++ drop n a = a.
+Proof. unfold take, drop. apply firstn_skipn. Qed.
+Lemma take_0 {A} n (a : list A) : n <= 0 -> take n a = [].
+Proof. intros H. unfold take. replace (Z.to_nat n) with 0%nat by lia. reflexivity. Qed.
+Lemma drop_0 {A} n (a : list A) : n <= 0 -> drop n a = a.
+Proof. intros H. unfold drop. replace (Z.to_nat n) with 0%nat by lia. reflexivity. Qed.
+
+(* ------------------------------------------------------------------ decimal digits *)
+Lemma digits_fuel_spec : forall fuel n acc, 0 <= n -> n < 10 ^ Z.of_nat fuel -> (0 < fuel)%nat ->
+  exists d, 1 <= d <= Z.of_nat fuel /\ zlen (digits_fuel fuel n acc) = zlen acc + d
+            /\ n < 10 ^ d /\ (d = 1 \/ 10 ^ (d - 1) <= n).
+Proof.
+  induction fuel as [|fuel IH]; intros n acc Hn Hlt Hf.
+  - lia.
+  - cbn [digits_fuel]. destruct (Z.ltb_spec n 10) as [H10|H10].
+    + exists 1. rewrite zlen_cons. repeat split; try lia.
+    + rewrite Nat2Z.inj_succ, Z.pow_succ_r in Hlt by lia.
+      destruct (IH (n / 10) ((48 + n mod 10) :: acc)) as (d & Hd & Hl & Hu & Hlo).
+      * apply Z.div_pos; lia.
+      * apply Z.div_lt_upper_bound; lia.
+      * destruct fuel as [|fuel']; [|lia]. simpl in Hlt. lia.
+      * exists (d + 1). rewrite Hl, zlen_cons.
+        replace (d + 1 - 1) with d by lia.
+        assert (E : 10 ^ (d + 1) = 10 * 10 ^ d) by (rewrite Z.pow_add_r by lia; lia).
+        assert (0 < 10 ^ (d - 1)) by (apply Z.pow_pos_nonneg; lia).
+        assert (E' : 10 ^ d = 10 * 10 ^ (d - 1)).
+        { replace d with (d - 1 + 1) at 1 by lia. rewrite Z.pow_add_r by lia. lia. }
+        repeat split; try lia.
+        -- rewrite E. Z.to_euclidean_division_equations; lia.
+        -- right. destruct Hlo as [->|Hlo]; [simpl; lia|].
+           rewrite E'. Z.to_euclidean_division_equations; lia.
+Qed.
+
+Lemma pow10_gt_pow2 k : 0 <= k -> 2 ^ k <= 10 ^ k.
+Proof. intros H. apply Z.pow_le_mono_l. lia. Qed.
+
+Lemma ndigits_spec n : 0 < n ->
+  1 <= ndigits n /\ 10 ^ (ndigits n - 1) <= n < 10 ^ ndigits n.
+Proof.
+  intros Hn. unfold ndigits, dec_str.
+  destruct (digits_fuel_spec (S (Z.to_nat (Z.log2 n))) n []) as (d & Hd & Hl & Hu & Hlo); [lia| |lia|].
+  - rewrite Nat2Z.inj_succ, Z2Nat.id by apply Z.log2_nonneg.
+    pose proof (Z.log2_spec n Hn) as [_ H2].
+    pose proof (pow10_gt_pow2 (Z.succ (Z.log2 n))). pose proof (Z.log2_nonneg n). lia.
+  - rewrite Hl. change (zlen (@nil Z)) with 0. replace (0 + d) with d by lia.
+    destruct Hlo as [->|Hlo]; simpl; lia.
+Qed.
+
+Lemma pow10_mono a b : 0 <= a <= b -> 10 ^ a <= 10 ^ b.
+Proof. intros H. apply Z.pow_le_mono_r; lia. Qed.
+
+(* the number of digits is determined by the decade *)
+Lemma ndigits_unique n d : 0 < n -> 1 <= d -> 10 ^ (d - 1) <= n < 10 ^ d -> ndigits n = d.
+Proof.
+  intros Hn Hd Hb. destruct (ndigits_spec n Hn) as (H1 & Hlo & Hhi).
+  destruct (Z.lt_trichotomy (ndigits n) d) as [Hlt|[->|Hgt]]; [|reflexivity|].
+  - pose proof (pow10_mono (ndigits n) (d - 1)). lia.
+  - pose proof (pow10_mono d (ndigits n - 1)). lia.
+Qed.
+
+Lemma lt_pow10 d : 0 <= d -> d < 10 ^ d.
+Proof.
+  intros H. pattern d. apply natlike_ind; [simpl; lia| |assumption].
+  intros x Hx IH. rewrite Z.pow_succ_r by lia. lia.
+Qed.
+
+(* the arithmetic of TckFile._write_header: whatever the length X of the rest of the header,
+   the offset written, X + d2, has exactly d2 digits *)
+Lemma tck_offset_fixpoint X : 0 < X ->
+  let d1 := ndigits X in let d2 := ndigits (X + d1) in ndigits (X + d2) = d2.
+Proof.
+  intros HX d1 d2.
+  destruct (ndigits_spec X HX) as (H1 & Hlo1 & Hhi1). fold d1 in H1, Hlo1, Hhi1.
+  assert (HX1 : 0 < X + d1) by lia.
+  destruct (ndigits_spec (X + d1) HX1) as (H2 & Hlo2 & Hhi2). fold d2 in H2, Hlo2, Hhi2.
+  assert (Hle : d1 <= d2).
+  { destruct (Z.le_gt_cases d1 d2); [assumption|].
+    pose proof (pow10_mono d2 (d1 - 1)). lia. }
+  destruct (Z.eq_dec d1 d2) as [E|NE].
+  - rewrite <- E. fold d2. rewrite <- E. reflexivity.
+  - assert (E10 : 10 ^ (d1 + 1) = 10 * 10 ^ d1) by (rewrite Z.pow_add_r by lia; lia).
+    pose proof (lt_pow10 d1 ltac:(lia)) as Hd.
+    assert (Hd2 : d2 = d1 + 1).
+    { destruct (Z.le_gt_cases d2 (d1 + 1)); [lia|].
+      pose proof (pow10_mono (d1 + 1) (d2 - 1)). lia. }
+    apply ndigits_unique; [lia|lia|].
+    rewrite Hd2. replace (d1 + 1 - 1) with d1 by lia. rewrite Hd2 in Hlo2.
+    replace (d1 + 1 - 1) with d1 in Hlo2 by lia. lia.
+Qed.
+
+(* ------------------------------------------------------------------ TCK header text *)
+Lemma zlen_dec_str n : zlen (dec_str n) = ndigits n.
+Proof. reflexivity. Qed.
+
+(* every header the writer produces states its own length *)
+Lemma tck_header_states_its_length count items h :
+  tck_header count items = Ok h ->
+  exists out, h = out ++ 10 :: S_file_dot ++ dec_str (zlen h) ++ 10 :: S_END ++ [10]
+              /\ zlen h = tck_hdr_offset (zlen out).
+Proof.
+  unfold tck_header. destruct (_ >? _); [discriminate|]. intros E.
+  apply (f_equal (fun r => match r with Ok a => a | Err _ => [] end)) in E. cbv beta iota in E. subst h.
+  set (out := tck_magic ++ 10 :: join_nl (tck_lines count items)).
+  exists out.
+  assert (L : zlen (out ++ 10 :: S_file_dot ++ dec_str (tck_hdr_offset (zlen out)) ++ 10 :: S_END ++ [10])
+              = tck_hdr_offset (zlen out)).
+  { rewrite zlen_app, zlen_cons, zlen_app, zlen_app, zlen_dec_str, zlen_cons, zlen_app.
+    change (zlen S_file_dot) with 8. change (zlen S_END) with 3. change (zlen [10]) with 1.
+    unfold tck_hdr_offset. cbv zeta.
+    pose proof (zlen_nonneg out) as Hout.
+    pose proof (tck_offset_fixpoint (zlen out + 8 + 3 + 3) ltac:(lia)) as F. cbv zeta in F.
+    rewrite F. lia. }
+  split; [|exact L]. rewrite L. reflexivity.
+Qed.
+
+Lemma tck_header_form count items h : tck_header count items = Ok h ->
+  h = (tck_magic ++ 10 :: join_nl (tck_lines count items))
+      ++ 10 :: S_file_dot ++ dec_str (zlen h) ++ 10 :: S_END ++ [10].
+Proof.
+  intros E. destruct (tck_header_states_its_length _ _ _ E) as (out & _ & EN).
+  pose proof E as E'. unfold tck_header in E'. destruct (_ >? _); [discriminate|].
+  apply (f_equal (fun r => match r with Ok a => a | Err _ => [] end)) in E'. cbv beta iota in E'.
+  destruct (tck_header_states_its_length _ _ _ E) as (out2 & Eo & EN2).
+  (* the length of h is the offset computed from the text before the file line *)
+  assert (L : zlen h = tck_hdr_offset (zlen (tck_magic ++ 10 :: join_nl (tck_lines count items)))).
+  { rewrite <- E' at 1. set (outv := tck_magic ++ 10 :: join_nl (tck_lines count items)).
+    rewrite zlen_app, zlen_cons, zlen_app, zlen_app, zlen_dec_str, zlen_cons, zlen_app.
+    change (zlen S_file_dot) with 8. change (zlen S_END) with 3. change (zlen [10]) with 1.
+    set (ol := zlen outv).
+    pose proof (zlen_nonneg outv) as Hol. fold ol in Hol.
+    pose proof (tck_offset_fixpoint (ol + 8 + 3 + 3) ltac:(lia)) as F. cbv zeta in F.
+    unfold tck_hdr_offset. cbv zeta. rewrite F. lia. }
+  rewrite L. symmetry. exact E'.
+Qed.
+
+(* ------------------------------------------------------------------ TCK data: chunking *)
+Lemma scan_app : forall x y out cur,
+  scan (x ++ y) out cur = let '(o, c) := scan x out cur in scan y o c.
+Proof.
+  induction x as [|t x IH]; intros y out cur; [reflexivity|].
+  cbn [app scan]. destruct (nan3 t); apply IH.
+Qed.
+
+Lemma triples_of_app be : forall n a b, length a = (12 * n)%nat ->
+  triples_of be (a ++ b) = triples_of be a ++ triples_of be b.
+Proof.
+  induction n as [|n IH]; intros a b H.
+  - destruct a; [reflexivity|simpl in H; lia].
+  - do 12 (destruct a as [|? a]; [simpl in H; lia|]).
+    cbn [app triples_of]. rewrite IH by (simpl in H; lia). reflexivity.
+Qed.
+
+Lemma chunk_check_nil : chunk_check [] = None.
+Proof. reflexivity. Qed.
+
+Lemma chunk_check_mult12 c : zlen c mod 12 = 0 -> chunk_check c = None.
+Proof.
+  intros H. unfold chunk_check.
+  replace (zlen c mod 4 =? 0) with true by (Z.to_euclidean_division_equations; lia).
+  replace (zlen c / 4 mod 3 =? 0) with true by (Z.to_euclidean_division_equations; lia).
+  reflexivity.
+Qed.
+
+Lemma chunk_check_app c r : zlen c mod 12 = 0 -> chunk_check (c ++ r) = chunk_check r.
+Proof.
+  intros H. unfold chunk_check. rewrite zlen_app.
+  replace ((zlen c + zlen r) mod 4) with (zlen r mod 4) by (Z.to_euclidean_division_equations; lia).
+  replace ((zlen c + zlen r) / 4 mod 3) with (zlen r / 4 mod 3) by (Z.to_euclidean_division_equations; lia).
+  reflexivity.
+Qed.
+
+Definition read_spec (be : bool) (f : list Z) (out : list (list triple)) (cur : list triple) :=
+  match chunk_check f with
+  | Some e => Err e
+  | None => let '(o, c) := scan (triples_of be f) out cur in tck_finish o c
+  end.
+
+Lemma tck_loop_spec be B : 12 <= B -> B mod 12 = 0 ->
+  forall fuel f out cur, (length f < fuel)%nat ->
+  tck_loop fuel be B f out cur = read_spec be f out cur.
+Proof.
+  intros HB Hm. induction fuel as [|fuel IH]; intros f out cur Hf; [lia|].
+  cbn [tck_loop]. rewrite takez_eq, dropz_eq.
+  destruct (Z.lt_ge_cases (zlen f) B) as [Hlt|Hge].
+  - (* last buffer *)
+    rewrite take_all by lia. replace (zlen f =? B) with false by lia. cbn [negb].
+    unfold read_spec. destruct (chunk_check f); [reflexivity|].
+    destruct (scan (triples_of be f) out cur). reflexivity.
+  - set (c := take B f). set (r := drop B f).
+    assert (Hc : zlen c = B) by (unfold c; rewrite zlen_take; lia).
+    assert (Ef : f = c ++ r) by (symmetry; apply take_drop_id).
+    assert (Hr : (length r < fuel)%nat).
+    { unfold r, drop. rewrite skipn_length. unfold zlen in *. lia. }
+    clearbody c r. subst f.
+    rewrite Hc. replace (B =? B) with true by lia. cbn [negb].
+    rewrite (chunk_check_mult12 c) by (rewrite Hc; exact Hm).
+    destruct (scan (triples_of be c) out cur) as [o' c'] eqn:Es.
+    rewrite IH by exact Hr.
+    unfold read_spec. rewrite chunk_check_app by (rewrite Hc; exact Hm).
+    destruct (chunk_check r); [reflexivity|].
+    rewrite (triples_of_app be (Z.to_nat (B / 12))).
+    + rewrite scan_app, Es. reflexivity.
+    + unfold zlen in Hc. Z.to_euclidean_division_equations; lia.
+Qed.
+
+Lemma tck_bufsize_ok b : 0 <= b -> 12 <= tck_bufsize b /\ tck_bufsize b mod 12 = 0.
+Proof. intros H. unfold tck_bufsize. Z.to_euclidean_division_equations; lia. Qed.
+
+(* the chunked reader computes the same thing as one unbounded buffer, for EVERY byte string
+   (valid or not) and every buffer size that is a positive multiple of one point *)
+Lemma chunk_independent be B f : 12 <= B -> B mod 12 = 0 ->
+  tck_read_data be B f = tck_read_all be f.
+Proof.
+  intros HB Hm. unfold tck_read_data. rewrite (tck_loop_spec be B HB Hm) by lia. reflexivity.
+Qed.
+
+(* ------------------------------------------------------------------ TCK data: round trip *)
+Definition f32_ok (u : Z) : Prop := 0 <= u < 2 ^ 32.
+Definition triple_ok (t : triple) : Prop :=
+  let '(x, y, z) := t in f32_ok x /\ f32_ok y /\ f32_ok z.
+(* a streamline inside the quantifier of the property: at least one point, no all-NaN point *)
+Definition wf_stream (s : list triple) : Prop :=
+  s <> [] /\ Forall (fun t => triple_ok t /\ nan3 t = false) s.
+
+Definition nan_delim3 : triple := Eval vm_compute in hd (0, 0, 0) (triples_of false tck_fiber_delim).
+Definition inf_delim3 : triple := Eval vm_compute in hd (0, 0, 0) (triples_of false tck_eof_delim).
+
+(* facts about the delimiter constants of the imported TckFile class (Tables.v) *)
+Lemma tck_delims_wf :
+  triples_of false tck_fiber_delim = [nan_delim3] /\ length tck_fiber_delim = 12%nat
+  /\ triples_of false tck_eof_delim = [inf_delim3] /\ length tck_eof_delim = 12%nat
+  /\ nan3 nan_delim3 = true /\ nan3 inf_delim3 = false /\ inf3 inf_delim3 = true.
+Proof. vm_compute. repeat split; reflexivity. Qed.
+
+Lemma enc4_shape be x : exists a b c d, enc be 4 x = [a; b; c; d].
+Proof.
+  pose proof (enc_length be 4 x) as H.
+  destruct (enc be 4 x) as [|a [|b [|c [|d [|e l]]]]]; simpl in H; try lia.
+  now exists a, b, c, d.
+Qed.
+
+Lemma pow256_4 : pow256 4 = 2 ^ 32.
+Proof. reflexivity. Qed.
+
+Lemma triples_of_enc_triple be t rest : triple_ok t ->
+  triples_of be (enc_triple be t ++ rest) = t :: triples_of be rest.
+Proof.
+  destruct t as [[x y] z]. intros (Hx & Hy & Hz). unfold enc_triple.
+  destruct (enc4_shape be x) as (a0 & a1 & a2 & a3 & Ex).
+  destruct (enc4_shape be y) as (b0 & b1 & b2 & b3 & Ey).
+  destruct (enc4_shape be z) as (c0 & c1 & c2 & c3 & Ez).
+  rewrite Ex, Ey, Ez. cbn [app triples_of]. rewrite <- Ex, <- Ey, <- Ez.
+  rewrite !dec_enc by (rewrite pow256_4; assumption). reflexivity.
+Qed.
+
+Lemma triples_of_enc_points be s rest : Forall triple_ok s ->
+  triples_of be (enc_points be s ++ rest) = s ++ triples_of be rest.
+Proof.
+  induction s as [|t s IH]; intros H; [reflexivity|].
+  inversion H as [|? ? Ht Hs]; subst. unfold enc_points. cbn [flat_map]. fold (enc_points be s).
+  rewrite <- app_assoc, triples_of_enc_triple by assumption. rewrite IH by assumption. reflexivity.
+Qed.
+
+Lemma enc_triple_length be t : length (enc_triple be t) = 12%nat.
+Proof. destruct t as [[x y] z]. unfold enc_triple. rewrite !app_length, !enc_length. reflexivity. Qed.
+
+Lemma enc_points_length be s : length (enc_points be s) = (12 * length s)%nat.
+Proof.
+  induction s as [|t s IH]; [reflexivity|]. unfold enc_points. cbn [flat_map]. fold (enc_points be s).
+  rewrite app_length, enc_triple_length, IH. cbn [length]. lia.
+Qed.
+
+Definition stream_bytes (s : list triple) : list Z := enc_points false s ++ tck_fiber_delim.
+Definition streams_bytes (sl : list (list triple)) : list Z := flat_map stream_bytes sl.
+
+Lemma tck_data_eq sl : tck_data sl = streams_bytes sl ++ tck_eof_delim.
+Proof. reflexivity. Qed.
+
+Lemma streams_bytes_length sl : exists n, length (streams_bytes sl) = (12 * n)%nat.
+Proof.
+  induction sl as [|s sl [n IH]]; [exists 0%nat; reflexivity|].
+  destruct tck_delims_wf as (_ & Hl & _).
+  exists (length s + 1 + n)%nat. unfold streams_bytes. cbn [flat_map]. fold (streams_bytes sl).
+  unfold stream_bytes at 1. rewrite !app_length, enc_points_length, Hl, IH. lia.
+Qed.
+
+Lemma triples_of_streams sl rest : Forall wf_stream sl ->
+  triples_of false (streams_bytes sl ++ rest)
+  = flat_map (fun s => s ++ [nan_delim3]) sl ++ triples_of false rest.
+Proof.
+  destruct tck_delims_wf as (Hn & Hnl & _).
+  induction sl as [|s sl IH]; intros H; [reflexivity|].
+  inversion H as [|? ? Hs Hsl]; subst. destruct Hs as (_ & Hs).
+  unfold streams_bytes. cbn [flat_map]. fold (streams_bytes sl). unfold stream_bytes at 1.
+  rewrite <- !app_assoc. rewrite triples_of_enc_points.
+  - rewrite (triples_of_app false 1 tck_fiber_delim) by exact Hnl. rewrite Hn, IH by assumption.
+    rewrite <- ?app_assoc. reflexivity.
+  - eapply Forall_impl; [|exact Hs]. intros t [Ht _]; exact Ht.
+Qed.
+
+Lemma scan_points : forall s rest out cur, Forall (fun t => nan3 t = false) s ->
+  scan (s ++ rest) out cur = scan rest out (cur ++ s).
+Proof.
+  induction s as [|t s IH]; intros rest out cur H; [now rewrite app_nil_r|].
+  inversion H as [|? ? Ht Hs]; subst. cbn [app scan]. rewrite Ht, IH by assumption.
+  rewrite <- app_assoc. reflexivity.
+Qed.
+
+Lemma scan_streams : forall sl rest out, Forall wf_stream sl ->
+  scan (flat_map (fun s => s ++ [nan_delim3]) sl ++ rest) out [] = scan rest (out ++ sl) [].
+Proof.
+  destruct tck_delims_wf as (_ & _ & _ & _ & Hnan & _).
+  induction sl as [|s sl IH]; intros rest out H; [now rewrite app_nil_r|].
+  inversion H as [|? ? Hs Hsl]; subst. destruct Hs as (Hne & Hs).
+  cbn [flat_map]. rewrite <- !app_assoc. rewrite scan_points.
+  - cbn [app scan]. rewrite Hnan. destruct s as [|t s']; [congruence|].
+    cbn [app]. rewrite IH by assumption. rewrite <- app_assoc. reflexivity.
+  - eapply Forall_impl; [|exact Hs]. intros t [_ Ht]; exact Ht.
+Qed.
+
+Lemma tck_read_all_data sl : Forall wf_stream sl -> tck_read_all false (tck_data sl) = Ok sl.
+Proof.
+  intros H. destruct tck_delims_wf as (_ & _ & He & Hel & _ & Hni & Hii).
+  unfold tck_read_all. rewrite tck_data_eq.
+  destruct (streams_bytes_length sl) as [n Hn].
+  rewrite chunk_check_mult12.
+  - rewrite triples_of_streams by assumption. rewrite He.
+    rewrite scan_streams by assumption. cbn [scan app]. rewrite Hni. cbn [app].
+    unfold tck_finish. rewrite Hii. reflexivity.
+  - rewrite zlen_app. unfold zlen. rewrite Hn, Hel. Z.to_euclidean_division_equations; lia.
+Qed.
+
+(* exact round trip of the data part, for every buffer size *)
+Lemma tck_data_roundtrip sl B : Forall wf_stream sl -> 12 <= B -> B mod 12 = 0 ->
+  tck_read_data false B (tck_data sl) = Ok sl.
+Proof. intros H HB Hm. rewrite chunk_independent by assumption. now apply tck_read_all_data. Qed.
+
+(* ------------------------------------------------------------------ TCK: the written file *)
+Lemma fo_write_end d f : fpos f = zlen (fbytes f) ->
+  fo_write d f = mkF (fpos f + zlen d) (fbytes f ++ d).
+Proof.
+  intros H. unfold fo_write. rewrite takez_eq, dropz_eq, H.
+  rewrite take_all by lia. rewrite drop_all by (pose proof (zlen_nonneg d); lia).
+  replace (zlen (fbytes f) - zlen (fbytes f)) with 0 by lia. unfold zeros. cbn [Z.to_nat repeat].
+  now rewrite !app_nil_r.
+Qed.
+
+(* overwriting the first bytes of a file with as many new bytes *)
+Lemma fo_write_over_head d h rest : zlen d = zlen h ->
+  fo_write d (mkF 0 (h ++ rest)) = mkF (zlen d) (d ++ rest).
+Proof.
+  intros H. unfold fo_write. cbn [fpos fbytes]. rewrite takez_eq, dropz_eq.
+  rewrite take_0 by lia. pose proof (zlen_nonneg (h ++ rest)).
+  replace (zeros (0 - zlen (h ++ rest))) with (@nil Z)
+    by (unfold zeros; replace (Z.to_nat (0 - zlen (h ++ rest))) with 0%nat by lia; reflexivity).
+  cbn [app]. replace (0 + zlen d) with (zlen h) by lia. rewrite drop_app_exact. f_equal. lia.
+Qed.
+
+Lemma tck_save_bytes count0 items sl h0 h :
+  tck_header count0 items = Ok h0 -> tck_header (zlen sl) items = Ok h -> zlen h0 = zlen h ->
+  tck_save count0 items sl = Ok (h ++ tck_data sl).
+Proof.
+  intros E0 E Hl. unfold tck_save. rewrite E0.
+  rewrite (fo_write_end h0 (mkF 0 [])) by reflexivity. cbn [fpos fbytes app].
+  destruct sl as [|s sl'].
+  - change (zlen (@nil (list triple))) with 0 in E. rewrite E. unfold fo_seek_set. cbn [fbytes].
+    rewrite <- (app_nil_r h0). rewrite fo_write_over_head by lia.
+    rewrite fo_write_end by (cbn [fpos fbytes]; rewrite app_nil_r; reflexivity).
+    cbn [fbytes]. rewrite app_nil_r. reflexivity.
+  - cbv beta iota. set (sl := s :: sl') in *. set (body := flat_map (fun s0 => enc_points false s0 ++ tck_fiber_delim) sl).
+    rewrite (fo_write_end body) by (cbn [fpos fbytes]; lia). cbn [fpos fbytes].
+    rewrite (fo_write_end tck_eof_delim) by (cbn [fpos fbytes]; rewrite zlen_app; lia). cbn [fpos fbytes].
+    rewrite E. unfold fo_seek_set. cbn [fbytes]. rewrite <- app_assoc.
+    rewrite fo_write_over_head by lia. cbn [fbytes]. reflexivity.
+Qed.
+
+(* ------------------------------------------------------------------ file position *)
+Definition keeps_pos {A} (step : fobj -> res (A * fobj)) : Prop :=
+  forall g a g', step g = Ok (a, g') -> fpos g' = fpos g /\ fbytes g' = fbytes g.
+
+Lemma iterate_fo_keeps {A} (step : fobj -> res (A * fobj)) : keeps_pos step ->
+  forall n f acc r f', iterate_fo n step f acc = Ok (r, f') ->
+  fpos f' = fpos f /\ fbytes f' = fbytes f.
+Proof.
+  intros K. induction n as [|n IH]; intros f acc r f' H; cbn [iterate_fo] in H.
+  - injection H as _ <-. split; reflexivity.
+  - destruct (step f) as [[a g]|e] eqn:E; [|discriminate].
+    destruct (K _ _ _ E) as [P B]. destruct (IH _ _ _ _ H) as [P' B']. split; congruence.
+Qed.
+
+Lemma fo_read_bytes n f : fbytes (snd (fo_read n f)) = fbytes f.
+Proof. reflexivity. Qed.
+
+Lemma tck_read_fo_keeps b hdr : keeps_pos (tck_read_fo b hdr).
+Proof.
+  intros g a g' H. unfold tck_read_fo in H.
+  destruct (snd hdr <? 0); [discriminate|].
+  destruct (fo_read (-1) (fo_seek_set (snd hdr) g)) as [d f2] eqn:Er.
+  destruct (tck_read_data _ _ d); [|discriminate]. injection H as _ <-.
+  assert (fbytes f2 = fbytes g).
+  { change f2 with (snd (d, f2)). rewrite <- Er. reflexivity. }
+  split; [reflexivity|assumption].
+Qed.
+
+Lemma tck_header_fo_keeps f hdr f1 : tck_header_fo f = Ok (hdr, f1) ->
+  fpos f1 = fpos f /\ fbytes f1 = fbytes f.
+Proof.
+  unfold tck_header_fo. destruct (tck_parse_header _); [|discriminate].
+  intros H. injection H as _ <-. split; reflexivity.
+Qed.
+
+(* eager load: the position and the bytes of the file object are what they were *)
+Lemma tck_session_eager b iters f r f' :
+  tck_session b false iters f = Ok (r, f') -> fpos f' = fpos f /\ fbytes f' = fbytes f.
+Proof.
+  unfold tck_session. destruct (tck_header_fo f) as [[hdr f1]|] eqn:E; [|discriminate].
+  intros H. destruct (tck_header_fo_keeps _ _ _ E) as [P B].
+  destruct (iterate_fo_keeps _ (tck_read_fo_keeps b hdr) _ _ _ _ _ H) as [P' B']. split; congruence.
+Qed.
+
+(* lazy load: the bytes are unchanged and complete passes do not move the position any
+   further: it stays where load() left it, whatever the number of passes *)
+Lemma tck_session_lazy_stable b f n r f' :
+  tck_session b true n f = Ok (r, f') ->
+  fbytes f' = fbytes f /\
+  forall m r2 f2, tck_session b true m f = Ok (r2, f2) -> fpos f2 = fpos f'.
+Proof.
+  unfold tck_session. destruct (tck_header_fo f) as [[hdr f1]|] eqn:E; [|discriminate].
+  destruct (tck_header_fo_keeps _ _ _ E) as [P B].
+  destruct (tck_peek_fo b hdr f1) as [fp|] eqn:Ep; [|discriminate].
+  intros H. destruct (iterate_fo_keeps _ (tck_read_fo_keeps b hdr) _ _ _ _ _ H) as [P' B'].
+  split.
+  - rewrite B'. unfold tck_peek_fo in Ep. destruct (snd hdr <? 0); [discriminate|].
+    destruct (tck_peek_loop _ _ _ _ _ _) as [[c|]|]; try discriminate; injection Ep as <-; unfold fo_seek_set, fo_read; cbn [fbytes snd fpos]; congruence.
+  - intros m r2 f2 H2. destruct (iterate_fo_keeps _ (tck_read_fo_keeps b hdr) _ _ _ _ _ H2) as [P2 _]. congruence.
+Qed.
+
+Lemma trk_read_fo_keeps hdr : keeps_pos (trk_read_fo hdr).
+Proof.
+  intros g a g' H. unfold trk_read_fo in H.
+  destruct (fo_read (-1) (fo_seek_set (snd hdr) g)) as [d f2] eqn:Er.
+  destruct (_ || _); [discriminate|].
+  destruct (trk_loop _ _ _ _ _ _ _ _); [|discriminate]. injection H as _ <-.
+  assert (fbytes f2 = fbytes g).
+  { change f2 with (snd (d, f2)). rewrite <- Er. reflexivity. }
+  split; [reflexivity|assumption].
+Qed.
+
+Lemma trk_header_fo_keeps o f hdr f1 : trk_header_fo o f = Ok (hdr, f1) ->
+  fpos f1 = fpos f /\ fbytes f1 = fbytes f.
+Proof.
+  unfold trk_header_fo. destruct (fo_read trk_header_size f) as [got g] eqn:Er.
+  destruct (trk_parse_header _ _); [|discriminate].
+  intros H. injection H as _ <-. split; [reflexivity|].
+  cbn [fo_seek_set fbytes]. change g with (snd (got, g)). rewrite <- Er. reflexivity.
+Qed.
+
+Lemma trk_session_eager o iters f r f' :
+  trk_session o false iters f = Ok (r, f') -> fpos f' = fpos f /\ fbytes f' = fbytes f.
+Proof.
+  unfold trk_session. destruct (trk_header_fo o f) as [[hdr f1]|] eqn:E; [|discriminate].
+  intros H. destruct (trk_header_fo_keeps _ _ _ _ E) as [P B].
+  destruct (iterate_fo_keeps _ (trk_read_fo_keeps hdr) _ _ _ _ _ H) as [P' B'].
+  unfold trk_size_fo, fo_seek_set, fo_seek_end, fo_tell in P', B'. cbn [snd fpos fbytes] in P', B'. split; congruence.
+Qed.
+
+Lemma trk_session_lazy_stable o f n r f' :
+  trk_session o true n f = Ok (r, f') ->
+  fbytes f' = fbytes f /\
+  forall m r2 f2, trk_session o true m f = Ok (r2, f2) -> fpos f2 = fpos f'.
+Proof.
+  unfold trk_session. destruct (trk_header_fo o f) as [[hdr f1]|] eqn:E; [|discriminate].
+  destruct (trk_header_fo_keeps _ _ _ _ E) as [P B].
+  destruct (trk_peek_fo hdr f1) as [fp|] eqn:Ep; [|discriminate].
+  intros H. destruct (iterate_fo_keeps _ (trk_read_fo_keeps hdr) _ _ _ _ _ H) as [P' B'].
+  split.
+  - rewrite B'. unfold trk_peek_fo in Ep. destruct (_ || _); [discriminate|].
+    destruct (trk_step _ _ _ _ _ _); try discriminate; injection Ep as <-; unfold fo_seek_set; cbn [fbytes snd fpos]; congruence.
+  - intros m r2 f2 H2. destruct (iterate_fo_keeps _ (trk_read_fo_keeps hdr) _ _ _ _ _ H2) as [P2 _]. congruence.
+Qed.
